@@ -60,17 +60,17 @@ def _replay_batched(cases: list, d: Path, batch: int = 32000) -> list[Path]:
 
 # ===========================================================================
 # C07
-C07_DISAGREEMENT = "C07.Timeline"  # equality with the transcription; the property clauses are the other ones
+C07_DISAGREEMENT = ("C07.Timeline", "C07.FailureReport")  # equality with the transcription; the property clauses are the other ones
 C07_INV = ["Aligned", "Consecutive", "FirstTickWindow", "SameForAllSeries", "CaughtUp", "TimerTracksWindow", "NeverEarly", "TypeOK"]
-C07_ACTIONS = ["CreateStep", "AddStep", "PassStep", "FireStep", "ResampleStep", "FinishStep"]
+C07_ACTIONS = ["CreateStep", "AddStep", "PassStep", "FireStep", "ResampleStep", "FinishStep", "BreakStep", "RecoverStep"]
 
 C07_SCOPES = {
     "quick": dict(
-        consts=dict(P=4, CreateSet=set(range(8, 12)), AlignSet={NONE, 1, 8, 43}, NS=2, LatSet={0, 2, 4, 9}, MaxLate=8, Horizon=16),
+        consts=dict(P=4, CreateSet=set(range(8, 12)), AlignSet={NONE, 1, 43}, NS=3, LatSet={0, 2, 9}, FailSet={2}, MaxFail=1, MaxLate=8, Horizon=16),
         limit=4000,
     ),
     "thorough": dict(
-        consts=dict(P=4, CreateSet=set(range(8, 12)), AlignSet={NONE, 0, 1, 10, 43}, NS=2, LatSet={0, 1, 4, 5, 12}, MaxLate=8, Horizon=24),
+        consts=dict(P=4, CreateSet=set(range(8, 12)), AlignSet={NONE, 0, 1, 43}, NS=3, LatSet={0, 1, 5, 12}, FailSet={2, 3}, MaxFail=1, MaxLate=8, Horizon=20),
         limit=100000,
     ),
 }
@@ -80,7 +80,7 @@ def replay_timeline(case: dict, cfg: dict) -> dict:
     """Drive the real Resampler along one TLC behaviour; record what every sink was handed."""
     from frequenz.channels import Broadcast
 
-    from frequenz.sdk.timeseries._resampling import Resampler, ResamplerConfig
+    from frequenz.sdk.timeseries._resampling import Resampler, ResamplerConfig, ResamplingError
 
     from .vloop import EPOCH, ManualLoop
 
@@ -91,17 +91,22 @@ def replay_timeline(case: dict, cfg: dict) -> dict:
     rec: dict[int, list[int]] = {k: [] for k in range(1, ns + 1)}
     joined: dict[int, int] = {}
     pending = [0]
-    seen_by_1: dict[int, int] = {}
+    seen_by_1: dict[int, int] = {}  # series -> len(rec[1]) when it was added
+    broke_at: dict[int, int] = {}  # series -> len(rec[1]) when it broke
+    sink_raises: set[int] = set()
     out = []
     c0 = steps[0]
     assert c0["a"] == "create"
     with ManualLoop(start=float(c0["c"]) * TICK_S) as loop:
         res = None
         task = None
-        chans = []
+        chans: dict[int, object] = {}
+        sources: dict[int, object] = {}
 
         def mk_sink(k: int):
             async def sink(sample) -> None:
+                if k in sink_raises:
+                    raise RuntimeError(f"sink {k} refuses")
                 idx = joined[k] + len(rec[k])  # index of this tick in the global timeline
                 rec[k].append(_ticks(sample.timestamp, EPOCH))
                 lat = lats[idx] if idx < len(lats) else 0
@@ -114,13 +119,30 @@ def replay_timeline(case: dict, cfg: dict) -> dict:
             return sink
 
         def add(k: int) -> None:
-            ch = Broadcast(name=f"src-{k}")  # a source that never yields
-            chans.append(ch)
+            ch = Broadcast(name=f"src-{k}")  # a source that never yields (until the harness closes it)
+            chans[k] = ch
+            sources[k] = ch.new_receiver()
             joined[k] = max([joined[j] + len(rec[j]) for j in joined], default=0)
             seen_by_1[k] = len(rec[1])
-            assert res.add_timeseries(f"s{k}", ch.new_receiver(), mk_sink(k))
+            assert res.add_timeseries(f"s{k}", sources[k], mk_sink(k))
 
-        for s in steps:
+        def named(exc) -> list[int]:
+            if not isinstance(exc, ResamplingError):
+                return []
+            return sorted(k for k, src in sources.items() if src in exc.exceptions)
+
+        def recover() -> None:
+            """ComponentMetricsResamplingActor._run: remove the sources a ResamplingError names, resample() again."""
+            nonlocal task
+            exc = task.exception() if task.done() and not task.cancelled() else None
+            if isinstance(exc, ResamplingError):
+                for src in exc.exceptions:
+                    res.remove_timeseries(src)
+            if task.done():
+                task = loop.create_task(res.resample())
+                loop.run_until_idle()
+
+        for i, s in enumerate(steps):
             a = s["a"]
             if a == "create":
                 kw = {}
@@ -138,18 +160,35 @@ def replay_timeline(case: dict, cfg: dict) -> dict:
                 loop.jump_to(loop.time() + TICK_S)  # the clock moves, the loop does not run
             elif a in ("fire", "resample", "finish"):
                 loop.run_until_idle()
+            elif a == "stop":
+                # the source ends: close the channel and let the receiving task notice (the spec only
+                # takes this step when nothing is overdue, so running the loop does nothing else)
+                broke_at[s["s"]] = len(rec[1])
+                ch_ = chans[s["s"]]
+                loop.create_task(getattr(ch_, "aclose", ch_.close)())
+                loop.run_until_idle()
+            elif a == "sinkfail":
+                broke_at[s["s"]] = len(rec[1])
+                sink_raises.add(s["s"])
+            elif a == "recover":
+                recover()
             else:
                 raise ValueError(a)
             err = ""
+            failed: list[int] = []
             if task.done():
                 ex_ = task.exception() if not task.cancelled() else None
                 err = type(ex_).__name__ if ex_ is not None else ("cancelled" if task.cancelled() else "returned")
-            out.append(dict(s, obs=dict(rec=[list(rec[k]) for k in range(1, ns + 1)], dead=bool(task.done()), err=err, pending=pending[0], jn=[seen_by_1.get(k, NONE) for k in range(1, ns + 1)])))
-            if task.done():
-                # observed and recorded; start resample() again (what ComponentMetricsResamplingActor._run
-                # does) so that the rest of the behaviour is still checked
-                task = loop.create_task(res.resample())
-                loop.run_until_idle()
+                failed = named(ex_)
+            out.append(dict(s, obs=dict(
+                rec=[list(rec[k]) for k in range(1, ns + 1)], dead=bool(task.done()), err=err, failed=failed, pending=pending[0],
+                jn=[seen_by_1.get(k, NONE) for k in range(1, ns + 1)], lf=[broke_at.get(k, NONE) for k in range(1, ns + 1)],
+            )))
+            if task.done() and not (err == "ResamplingError" and any(x["a"] == "recover" for x in steps[i + 1 :])):
+                # observed and recorded.  A ResamplingError is left for the behaviour's own "recover" step
+                # (the real loop may have run ahead through a chain of ticks to get there); anything else
+                # is recovered at once, like the actor does, so that the rest is still checked
+                recover()
     return dict(id=case["id"], steps=out)
 
 
@@ -201,7 +240,7 @@ def run_c07(rep: Report, tier: str, work: Path) -> None:
     if cut:
         rep.exhaustive = False
     # non-vacuity of the interesting regimes (counted on the behaviours TLC generated)
-    ex = dict(late_timer=0, late_by_a_period_or_more=0, catch_up_burst=0, slow_sink_over_a_period=0, series_added_while_running=0, series_added_while_sinks_pending=0, unaligned_creation=0, align_future=0, align_none=0, ticks_total=0)
+    ex = dict(late_timer=0, late_by_a_period_or_more=0, catch_up_burst=0, slow_sink_over_a_period=0, series_added_while_running=0, series_added_while_sinks_pending=0, source_stopped=0, sink_raised=0, failing_series_recovered=0, ticks_after_recovery=0, unaligned_creation=0, align_future=0, align_none=0, ticks_total=0)
     for _, line in cases:
         st = _parse_line(line)
         fires = [s for s in st if s["a"] == "fire"]
@@ -218,6 +257,11 @@ def run_c07(rep: Report, tier: str, work: Path) -> None:
                 ex["series_added_while_running"] += 1
                 break
         ex["series_added_while_sinks_pending"] += any(s["a"] == "finish" and s["grown"] for s in st)
+        ex["source_stopped"] += any(s["a"] == "stop" for s in st)
+        ex["sink_raised"] += any(s["a"] == "sinkfail" for s in st)
+        rec_at = [i for i, s in enumerate(st) if s["a"] == "recover"]
+        ex["failing_series_recovered"] += bool(rec_at)
+        ex["ticks_after_recovery"] += bool(rec_at) and any(s["a"] == "resample" for s in st[rec_at[0]:])
         al, c0 = st[0]["align"], st[0]["c"]
         ex["align_none"] += al == NONE
         ex["align_future"] += al != NONE and al > c0
@@ -238,7 +282,7 @@ def run_c07(rep: Report, tier: str, work: Path) -> None:
         rep.samples.append(load_ndjson(shards[0])[0])
     byid = _byid(shards) if fails else {}
     for v in fails:
-        if v["clause"] == C07_DISAGREEMENT:
+        if v["clause"] in C07_DISAGREEMENT:
             dis = rep.extra.setdefault("disagreements", [])
             if len(dis) < 20:
                 dis.append(dict(trace=v["tid"], step=v["l"], detail=v["detail"]))
